@@ -109,6 +109,16 @@ theorem step_s {s s' : St} {a : SAct} (hs : step s (.s a) = some s') : sStep s a
 theorem step_e {s s' : St} {a : EAct} (hs : step s (.e a) = some s') : eStep s a = some s' := by
   have := step_live hs; simp only [step, this] at hs; simpa using hs
 
+theorem step_wd {s s' : St} {a : GAct} (hs : step s (.g a) = some s') : gStep s a = some s' := by
+  have := step_live hs; simp only [step, this] at hs; simpa using hs
+
+theorem step_of_wd {s : St} {a : GAct} (h : s.exited = none) : step s (.g a) = gStep s a := by simp [step, h]
+
+/-- a step of the watchdog changes only the owner of thd_mutex and the watchdog's program counter -/
+theorem g_step_frame {s s' : St} {a : GAct} (hs : gStep s a = some s') :
+    s' = { s with thd := s'.thd, gpc := s'.gpc } := by
+  cases a <;> simp only [gStep] at hs <;> split at hs <;> simp at hs <;> subst hs <;> rfl
+
 theorem step_of_d {s : St} {a : DAct} (h : s.exited = none) : step s (.d a) = dStep s a := by simp [step, h]
 theorem step_of_w {s : St} {i : Nat} {a : WAct} (h : s.exited = none) : step s (.w i a) = wStep s i a := by
   simp [step, h]
@@ -162,6 +172,7 @@ theorem step_params {s s' : St} {l : Label} (hs : step s l = some s') :
   | e a =>
     have hd := step_e hs
     cases a <;> simp only [eStep] at hd <;> (try split at hd) <;> simp at hd <;> subst hd <;> simp
+  | g a => rw [g_step_frame (step_wd hs)]; simp
 
 theorem exec_params {s0 s : St} {ls : List Label} (he : Exec s0 ls s) :
     s.v = s0.v ∧ s.f = s0.f ∧ s.batch = s0.batch ∧ s.ws.length = s0.ws.length ∧ s.ts.length = s0.ts.length := by
@@ -172,7 +183,7 @@ theorem exec_params {s0 s : St} {ls : List Label} (he : Exec s0 ls s) :
     exact ⟨this.1.trans ih.1, this.2.1.trans ih.2.1, this.2.2.1.trans ih.2.2.1, this.2.2.2.1.trans ih.2.2.2.1,
            this.2.2.2.2.trans ih.2.2.2.2⟩
 
-theorem reach_params {v g f n b t0 s} (h : Reach v g f n b t0 s) :
+theorem reach_params {v g sw f n b t0 s} (h : Reach v g sw f n b t0 s) :
     s.v = v ∧ s.f = f ∧ s.batch = b ∧ s.ws.length = n ∧ s.ts.length = n := by
   obtain ⟨ls, he⟩ := h
   have := exec_params he
